@@ -306,6 +306,10 @@ Init ==
   /\ may = [l \in Listeners |-> {}]
   /\ cnt = [sub |-> 0, lop |-> 0, post |-> 0, disc |-> 0]
 
+\* What a per-line callback returns to the protocol is the application's business (a count, a Deferred, a string ...)
+\* and has no effect; recorded traces carry it as the field `ret` of a "cb" submission.
+CbReturns == {"none", "one", "zero", "defer", "text"}
+
 Submit(kind) ==
   /\ kind \in {"plain", "cb", "retry", "chain", "closer"}
   /\ m' = QueueCmd(Reset(m), kind, {})
